@@ -35,7 +35,7 @@ def calibrate():
 _small = st.integers(0, 30)
 _names = st.lists(st.one_of(
     st.fixed_dictionaries({"lit": _small}), st.fixed_dictionaries({"re": st.integers(0, 3)}),
-    st.just("main"), st.just("entry")), min_size=1, max_size=3)
+    st.just("main"), st.just("entry")), min_size=0, max_size=3)   # (an empty filter selects / excludes nothing)
 _bpos = st.sampled_from(["entry", "exit", "anywhere"])
 _scope = st.one_of(
     st.fixed_dictionaries({"k": st.just("all_blocks"), "pos": _bpos, "excl": st.one_of(st.none(), _names)}),
